@@ -679,6 +679,7 @@ func cmdCodec(args []string) {
 		g.Budget = 120
 	}
 	for i := 0; i < *n; i++ {
+		g.Cover(mt.Descriptor(), i, *n) // every field of a wide message is populated in some case
 		randomCodecPlan(g, mt, *mode, r.run)
 	}
 }
